@@ -38,6 +38,10 @@ if TYPE_CHECKING:
 logger = logging.getLogger(__name__)
 
 
+class CheckpointingStoppedError(DurableExecutionsError):
+    """Stored for callers that ask for a checkpoint after checkpointing was stopped."""
+
+
 @dataclass(frozen=True)
 class CheckpointBatcherConfig:
     """Configuration for checkpoint batching behavior.
@@ -733,7 +737,7 @@ class ExecutionState:
             # on a checkpoint that will never be sent - refuse it and wake whoever is still queued.
             stopped_error: BackgroundThreadError = BackgroundThreadError(
                 "Checkpointing has been stopped",
-                DurableExecutionsError(
+                CheckpointingStoppedError(
                     "Checkpoint requested after checkpointing was stopped"
                 ),
             )
@@ -749,6 +753,18 @@ class ExecutionState:
                         break
 
         logger.debug("Background checkpoint processing stopped")
+
+    def raise_if_checkpointing_failed(self) -> None:
+        """Raise the stored BackgroundThreadError if a checkpoint call has failed.
+
+        The marker left behind by an orderly stop is not a failure.
+        """
+        if self._checkpointing_failed.is_set():
+            try:
+                self._checkpointing_failed.wait()
+            except BackgroundThreadError as bg_error:
+                if not isinstance(bg_error.source_exception, CheckpointingStoppedError):
+                    raise
 
     def stop_checkpointing(self) -> None:
         """Signal background thread to stop checkpointing.
